@@ -98,7 +98,45 @@ func (pipe) Check(obs any, res *sched.Result) (string, []sched.Finding) {
 	return "sum=3", nil
 }
 
-var all = []sched.Scenario{&counter{"racy", false}, &counter{"locked", true}, inversion{}, pipe{}}
+// bufpipe: a three-stage pipeline over buffered channels (capacity 2), five values, the last stage started late:
+// on every schedule the sink must see exactly 0..4 in order (FIFO, nothing lost when a full buffer meets a pending
+// receiver, buffered values still delivered after close).
+type bufpipe struct{}
+
+func (bufpipe) Name() string { return "bufpipe" }
+func (bufpipe) Run() any {
+	a := sched.MakeChan[int](2)
+	b := sched.MakeChan[int](2)
+	out := sched.MakeChan[string](0)
+	sched.Go(func() {
+		for i := 0; i < 5; i++ {
+			sched.Send(a, i)
+		}
+		sched.Close(a)
+	})
+	sched.Go(func() {
+		for v := range sched.RangeChan(a) {
+			sched.Send(b, v)
+		}
+		sched.Close(b)
+	})
+	sched.Go(func() {
+		got := ""
+		for v := range sched.RangeChan(b) {
+			got += fmt.Sprint(v)
+		}
+		sched.Send(out, got)
+	})
+	return sched.Recv(out)
+}
+func (bufpipe) Check(obs any, res *sched.Result) (string, []sched.Finding) {
+	if res.Failure != "" || obs.(string) != "01234" {
+		return "bad", []sched.Finding{{Class: "bufpipe_bad", What: fmt.Sprint(res.Failure, obs)}}
+	}
+	return "01234", nil
+}
+
+var all = []sched.Scenario{bufpipe{}, &counter{"racy", false}, &counter{"locked", true}, inversion{}, pipe{}}
 
 func lookup(n string) sched.Scenario {
 	for _, s := range all {
@@ -114,7 +152,7 @@ func main() {
 		sched.WorkerMain(lookup)
 		return
 	}
-	want := map[string]string{"racy": "lost_update", "locked": "", "inversion": "deadlock", "pipe": ""}
+	want := map[string]string{"racy": "lost_update", "locked": "", "inversion": "deadlock", "pipe": "", "bufpipe": ""}
 	bad := false
 	for _, s := range all {
 		st, exh, left := sched.Explore([]sched.Scenario{s}, sched.Bounds{Preempt: 2, Faults: 0, Horizon: 500}, 4, time.Now().Add(30*time.Second), 0)
